@@ -30,6 +30,9 @@ def cls_case(draw):
     x = est.sanitize(row, x)
     N = x["n"]
     p = draw(est.params(row, N, cplx))
+    if row == "pburg" and draw(st.integers(0, 2)) == 2:
+        # the class's own option: an order-selection criterion (fewer coefficients than `order` may be retained)
+        p["criteria"] = draw(st.sampled_from(["AIC", "MDL", "FPE", "AICc", "KIC", "AKICc"]))
     lo = max(N, est.min_nfft(row, N, p))
     nfft = draw(gen.nfft_at_least(lo, hi_mult=2, allow_none=(lo == N)))
     return {"row": row, "x": x, "params": p, "nfft": nfft, "s1": draw(gen.sampling), "s2": draw(gen.sampling),
@@ -290,3 +293,15 @@ from vlib import kwcheck as _kw   # noqa: E402
          "result as the positional call, and every documented name is accepted: " + ", ".join(_kw.PROPS["C08"]))
 def c08_keywords(ctx, case):
     _kw.body(ctx, case)
+
+
+# ---- the object between two reads: display calls, in-place edits of the samples, a refilled buffer ------------
+from vlib import lifecheck as _life   # noqa: E402
+
+
+@sub("C08.life", strategy=_life.life_case(['Periodogram', 'pcorrelogram', 'pburg', 'pyule', 'pcovar', 'pmodcovar', 'parma', 'pma', 'pminvar', 'mtm_unity']), quick=400, thorough=10000,
+     doc="the estimate (and every exposed model quantity) of a live object after p.plot(norm=True) / p.plot() / str(p) is "
+         "bit-identical to what it was, and after p.data *= g, p.data -= mean or the construction buffer refilled in place and "
+         "assigned again equals that of a fresh object on the samples now held: Periodogram, pcorrelogram, pburg, pyule, pcovar, pmodcovar, parma, pma, pminvar, mtm_unity")
+def c08_life(ctx, case):
+    _life.body(ctx, case)
